@@ -24,8 +24,17 @@ def AND(*args):
     return all(args)
 
 
+def single(value):
+    # a one-cell range ([[v]]) or one-item array ([v]) given where one value is expected is that value
+    for _ in range(2):
+        if isinstance(value, (list, tuple)) and len(value) == 1:
+            value = value[0]
+    return value
+
+
 @dispatcher.register_for('IF')
 def IF(test, then, otherwise):
+    test = single(test)
     if isinstance(test, error.XLError):
         return test
     return then if test else otherwise
@@ -43,6 +52,7 @@ def IFNA(value, value_if_na):
 
 @dispatcher.register_for('NOT')
 def NOT(boolean):
+    boolean = single(boolean)
     if isinstance(boolean, error.XLError):
         return boolean
     return not boolean
